@@ -418,6 +418,64 @@ def excise_range(text: str, start: str, last: str, replacement: str, report: Dro
     return fr.apply()
 
 
+def tail_loop_break_to_return(text: str, report: DropReport, item: str) -> str:
+    """W16: Verus has no `break VALUE`.  When a `loop { .. }` is the TAIL expression of the function body, leaving it with
+    `break E` is returning E from the function: each `break E` of that loop becomes `return E`.  Breaks of nested loops and of
+    closures are left alone; a labelled break is refused."""
+    fr = R.Frag(text)
+    ct = fr.ct
+    i = next((k for k, t in enumerate(ct) if t.text == "fn"), None)
+    if i is None:
+        return text
+    b = i
+    while ct[b].text != "{":
+        if ct[b].text in R.OPEN:
+            b = R.match_close(ct, b)
+        b += 1
+    bc = R.match_close(ct, b)
+    # the tail expression: a `loop` at depth 1 whose block closes right before the body does
+    lp = None
+    k = b + 1
+    while k < bc:
+        if ct[k].text in R.OPEN:
+            k = R.match_close(ct, k) + 1
+            continue
+        if ct[k].text == "loop" and ct[k + 1].text == "{" and R.match_close(ct, k + 1) == bc - 1:
+            lp = k
+            break
+        k += 1
+    if lp is None:
+        raise ExtractError(f"{item}: no `loop` in tail position (W16 does not apply)")
+    lo, lc = lp + 1, R.match_close(ct, lp + 1)
+    if R.closures(ct, lo + 1, lc):
+        raise ExtractError(f"{item}: closure inside the tail loop (W16 does not look into closures)")
+    cnt = 0
+    k = lo + 1
+    while k < lc:
+        t = ct[k]
+        if t.text in ("loop", "while", "for") and t.kind == "ident":
+            # skip the nested loop (its breaks are its own)
+            j = k + 1
+            while ct[j].text != "{":
+                if ct[j].text in R.OPEN:
+                    j = R.match_close(ct, j)
+                j += 1
+            k = R.match_close(ct, j) + 1
+            continue
+        if t.text == "break" and t.kind == "ident":
+            nxt = ct[k + 1]
+            if nxt.kind == "lifetime" or nxt.text.startswith("'"):
+                raise ExtractError(f"{item}: labelled break in the tail loop")
+            if nxt.text not in (";", "}", ","):
+                fr.replace(t.start, t.end, "return")
+                cnt += 1
+        k += 1
+    if cnt:
+        report.add("W16", item, "`break VALUE` of the function's tail `loop` -> `return VALUE`", cnt)
+        return fr.apply()
+    return text
+
+
 def mut_self_to_local(text: str, name: str, report: DropReport, item: str) -> str:
     """W8b: Verus has no `mut self` parameter: `fn f(mut self, ..) { B }` -> `fn f(self, ..) { let mut NAME = self; B[self := NAME] }`
     (binding a by-value parameter mutably is a local rebinding)."""
@@ -877,8 +935,23 @@ def splice_fn(text: str, sp: Splice, item: str, vacuity: bool = False) -> str:
     if len(cl_all) == 0 and sp.closures:
         # every closure is gone: no header can be misapplied, the function is judged by its contract alone
         sp = dataclasses.replace(sp, closures={})
+    def _split_hdr(hdr_text: str) -> Tuple[str, List[str]]:
+        # W4b: Verus closures take plain variables only.  A header may be followed by lines `let PATTERN = NAME;` that
+        # destructure a parameter at the start of the body: `|(a, b)| E` is spliced as `|p: T| -> .. { let (a, b) = p; E }`
+        lines = hdr_text.strip().split("\n")
+        lets = [l.strip() for l in lines if l.strip().startswith("let ")]
+        return "\n".join(l for l in lines if not l.strip().startswith("let ")), lets
     def _param_names(hdr_text: str) -> List[str]:
         # names bound by a closure header `|a, (b, c): T, mut d|` (types dropped)
+        hdr_text, lets = _split_hdr(hdr_text)
+        names = _param_names0(hdr_text)
+        for l in lets:
+            m = re.fullmatch(r"let\s+(.*?)\s*=\s*([A-Za-z_][A-Za-z0-9_]*)\s*;", l)
+            if not m:
+                raise ExtractError(f"{item}: malformed closure prologue `{l}`")
+            names = [m.group(1) if nm == m.group(2) else nm for nm in names]
+        return names
+    def _param_names0(hdr_text: str) -> List[str]:
         inner = hdr_text.strip()
         inner = inner[inner.index("|") + 1:]
         inner = inner[:inner.index("|")] if "|" in inner else inner
@@ -932,10 +1005,13 @@ def splice_fn(text: str, sp: Splice, item: str, vacuity: bool = False) -> str:
                     hdr = tmp
                 else:
                     raise ExtractError(f"{item}: closure #{n} binds {src_names}, its contract header binds {hdr_names}: closure structure changed")
+            hdr, lets = _split_hdr(hdr)
             fr.replace(ct[hf].start, ct[hl].end, hdr + " ")
             if ct[bf].text != "{":
-                fr.insert(ct[bf].start, "{ ")
+                fr.insert(ct[bf].start, "{ " + " ".join(lets) + " ")
                 fr.insert(ct[bl].end, " }")
+            elif lets:
+                fr.insert(ct[bf].end, " " + " ".join(lets) + " ")
     if sp.loop_inv or sp.loop_body_start or sp.loop_iter or sp.loop_body_end:
         lp = R.loops(ct, bo + 1, bc)
         for n in set(sp.loop_inv) | set(sp.loop_body_start) | set(sp.loop_iter) | set(sp.loop_body_end):
@@ -1035,6 +1111,8 @@ class Unit:
                 text = drop_cfg_gated(text, icfg["drop_cfg_features"], self.report, itemname)
             for ex in icfg.get("excise", []):
                 text = excise_match(text, ex["scrutinee"], ex["replace"], self.report, itemname)
+            if icfg.get("tail_loop_break_to_return"):
+                text = tail_loop_break_to_return(text, self.report, itemname)
             if icfg.get("mut_self_to"):
                 text = mut_self_to_local(text, icfg["mut_self_to"], self.report, itemname)
             for fw in icfg.get("for_to_while", []):
